@@ -13,8 +13,8 @@ VERIF = K.VERIF
 def run_smt(h, scratch, logdir, tier):
     out = os.path.join(logdir, h.name + ".json")
     logfile = os.path.join(logdir, h.name + ".log")
-    cmd = ["python3", os.path.join(VERIF, "smt", "float_check.py"), "--repo", os.path.join(scratch, "repo"),
-           "--scratch", os.path.join(scratch, "smt-" + h.name), "--out", out] + list(h.args)
+    cmd = ["python3", os.path.join(VERIF, "smt", h.args[0]), "--repo", os.path.join(scratch, "repo"),
+           "--scratch", os.path.join(scratch, "smt-" + h.name), "--out", out] + list(h.args[1:])
     t0 = time.time()
     try:
         with open(logfile, "w") as lf:
@@ -33,7 +33,7 @@ def run_smt(h, scratch, logdir, tier):
         r["class"], r["why"] = "inconclusive", "the SMT driver failed (MIR dump or translator error); log tail:\n" + tail
     else:
         d = json.load(open(out))
-        r["smt"] = {k: d.get(k) for k in ("exponents", "paths", "decided_returns", "cache_hits", "opaque_returns", "err_returns", "oblig_unsat",
+        r["smt"] = {k: d.get(k) for k in ("cases", "intrinsics_modelled", "exponents", "paths", "decided_returns", "cache_hits", "opaque_returns", "err_returns", "oblig_unsat",
                                           "oblig_unknown", "queries", "solver_calls", "fast_exps_range", "n_fast_exps", "opaque_calls",
                                           "interpreted", "validation", "solver", "wall_s")}
         r["checks_total"] = d["decided_returns"] + d["oblig_unsat"] + len(d["oblig_sat"])
@@ -47,8 +47,9 @@ def run_smt(h, scratch, logdir, tier):
             r["why"] = "translator/solver error: %s" % (d["unsupported"] or d["errors"])[:3]
         elif cex:
             r["class"] = "fail"
-            r["failed_checks"] = [{"desc": "%s at exp10=%s w=%s neg=%s" % (c["kind"], c["exp10"], c["w"], c.get("neg")), "loc": "sonic-number/src/lib.rs", "cex": c}
-                                  for c in cex[:40]]
+            r["failed_checks"] = [{"desc": ("%s at need=%s bytes=%s" % (c["kind"], c["need"], c.get("bytes"))) if "need" in c else
+                                           ("%s at exp10=%s w=%s neg=%s" % (c["kind"], c["exp10"], c["w"], c.get("neg"))),
+                                   "loc": "sonic-number/src/arch/x86_64.rs" if "need" in c else "sonic-number/src/lib.rs", "cex": c} for c in cex[:40]]
         elif d["unknown"] or d["unrealisable"]:
             r["class"] = "inconclusive"
             r["why"] = "solver did not decide: unknown=%s unrealisable=%s" % (d["unknown"][:4], [(u["exp10"], u["kind"]) for u in d["unrealisable"][:4]])
@@ -68,29 +69,34 @@ def cex_text(c):
     return "%s%de%d" % ("-" if c.get("neg") else "", c["w"], c["exp10"])
 
 
-def build_runner(repo_dir, work):
+def build_runner(repo_dir, work, kind="replay"):
     shutil.rmtree(work, ignore_errors=True)
-    shutil.copytree(os.path.join(VERIF, "smt", "replay"), work)
-    p = os.path.join(work, "Cargo.toml")
-    open(p, "w").write(open(p).read().replace("@REPO@", repo_dir))
+    shutil.copytree(os.path.join(VERIF, "smt", kind), work, ignore=shutil.ignore_patterns("target"))
+    for rel in ("Cargo.toml", os.path.join("src", "main.rs")):
+        p = os.path.join(work, rel)
+        txt = open(p).read().replace("@REPO@", repo_dir)
+        with open(p, "w") as f:
+            f.write(txt)
     lock = os.path.join(repo_dir, "Cargo.lock")
     if os.path.exists(lock):
         shutil.copy(lock, os.path.join(work, "Cargo.lock"))
     env = dict(os.environ, CARGO_NET_OFFLINE="true")
+    if kind == "replay_simd":
+        env["RUSTFLAGS"] = "-C target-cpu=native"     # the SSE kernel is only selected (and only compiles) with these features
     outs = {}
     for prof, flag in (("dev", []), ("release", ["--release"])):
         r = subprocess.run(["cargo", "build", "--offline"] + flag + ["--target-dir", os.path.join(work, "target")], cwd=work, env=env,
                            capture_output=True, text=True)
         if r.returncode != 0:
             return None, r.stderr[-1500:]
-        outs[prof] = os.path.join(work, "target", "debug" if prof == "dev" else "release", "smt-replay")
+        outs[prof] = os.path.join(work, "target", "debug" if prof == "dev" else "release", "smt-replay-simd" if kind == "replay_simd" else "smt-replay")
     return outs, ""
 
 
 def run_texts(bins, texts):
     res = {}
     for prof, b in bins.items():
-        p = subprocess.run([b] + texts, capture_output=True, text=True)
+        p = subprocess.run([b] + [a for t in texts for a in t.split(" ")], capture_output=True, text=True)
         res[prof] = {"exit": p.returncode, "lines": [l for l in p.stdout.splitlines() if l.startswith("REPLAY")]}
     return res
 
@@ -100,15 +106,21 @@ def replay_counterexample(h, r, scratch, prop, logdir):
     os.makedirs(out_dir, exist_ok=True)
     path = os.path.join(out_dir, "%s-%s.json" % (prop, h.name))
     texts = []
+    kind = "replay"
     for c in r["failed_checks"]:
-        if c["cex"].get("w") is not None:
+        if c["cex"].get("bytes") is not None and "need" in c["cex"]:
+            kind = "replay_simd"
+            t = "%d %s" % (c["cex"]["need"], c["cex"]["bytes"])
+        elif c["cex"].get("w") is not None:
             t = cex_text(c["cex"])
-            if t not in texts:
-                texts.append(t)
+        else:
+            continue
+        if t not in texts:
+            texts.append(t)
     texts = texts[:12]
-    rec = {"property": prop, "harness": h.name, "crate": "smt", "kind": "smt", "texts": texts, "failed_checks": r["failed_checks"][:12],
+    rec = {"property": prop, "harness": h.name, "crate": "smt", "kind": "smt", "runner": kind, "texts": texts, "failed_checks": r["failed_checks"][:12],
            "functions": h.funcs, "bound": h.bound, "reproduced": False}
-    bins, err = build_runner(os.path.join(scratch, "repo"), os.path.join(scratch, "smt-replay"))
+    bins, err = build_runner(os.path.join(scratch, "repo"), os.path.join(scratch, "smt-" + kind), kind)
     if bins is None:
         rec["detail"] = "replay runner did not build: " + err[-300:]
         json.dump(rec, open(path, "w"), indent=1)
@@ -129,7 +141,7 @@ def replay_file(rec):
         repo_copy = os.path.join(work, "repo")
         os.makedirs(work, exist_ok=True)
         subprocess.run(["rsync", "-a", "--exclude", "/target", "--exclude", "/.git", K.REPO + "/", repo_copy + "/"], check=True)
-        bins, err = build_runner(repo_copy, os.path.join(work, "runner"))
+        bins, err = build_runner(repo_copy, os.path.join(work, "runner"), rec.get("runner", "replay"))
         if bins is None:
             print("replay runner did not build:\n" + err)
             return 2
